@@ -73,6 +73,7 @@ type vC16Event struct {
 	Clk      int64            `json:"clk"`
 	Known    map[string]int64 `json:"known"`
 	Timeouts int              `json:"timeouts"`
+	NoAnswer int              `json:"noanswer"` // publishes without an answer although a later fence was acknowledged
 	Paused   bool             `json:"paused"` // the partition was paused when the round ended
 	Pauses   int              `json:"pauses"` // PauseStream calls of the round (information only)
 	Note     string           `json:"note,omitempty"`
@@ -162,7 +163,7 @@ func vC16Policy(pol string) client.AckPolicy {
 func vC16Exp(kind string, known int64) int64 {
 	var e int64
 	switch kind {
-	case "waive":
+	case "waive", "fence":
 		return -1
 	case "neg": // negative values other than -1 do not waive the check
 		return -2
@@ -250,6 +251,12 @@ func (p *vC16Pub) openAsync() error {
 			if pd == nil && resp.Ack != nil {
 				key = resp.Ack.CorrelationId
 				pd = p.pending[key]
+			}
+			if pd != nil && pd.msg.Res == "noanswer" {
+				// an answer after the fence was acknowledged: recorded, the verdict stands
+				pd.msg.Err = "late answer after the fence: " + res
+				delete(p.pending, key)
+				pd = nil
 			}
 			if pd != nil {
 				delete(p.pending, key)
@@ -349,6 +356,42 @@ func (p *vC16Pub) await() (timeouts int) {
 	return timeouts
 }
 
+// fence: some publishes of this publisher (ack policy LEADER/ALL) got no answer
+// before the deadline.  Whether that is slowness or an answer that was never
+// sent is decided by a fence: one more publish of the same publisher over the
+// same path (check waived, ack policy LEADER).  The leader loop handles the
+// messages of one publisher in order and sends a refusal before it takes the
+// next message, and answers travel in order, so once the fence is acknowledged
+// every earlier publish has been judged by the leader and a refusal for it
+// would have arrived: what is still unanswered is recorded as "noanswer" (an
+// observation TLC judges); without the fence's ack it stays "timeout" (unknown).
+func (p *vC16Pub) fence() {
+	p.mu.Lock()
+	var open []*vC16Msg
+	for _, m := range p.msgs {
+		if m.Pol != "none" && m.AckT >= vC16Inf {
+			open = append(open, m)
+		}
+	}
+	p.mu.Unlock()
+	if len(open) == 0 {
+		return
+	}
+	p.send("fence", "leader")
+	p.await()
+	p.mu.Lock()
+	defer p.mu.Unlock()
+	f := p.msgs[len(p.msgs)-1]
+	if f.Kind != "fence" || f.Res != "ok" {
+		return
+	}
+	for _, m := range open {
+		if m.AckT >= vC16Inf {
+			m.AckT, m.Res = f.AckT, "noanswer"
+		}
+	}
+}
+
 func (r *vC16Round) readEnd() int64 { return r.cur().log.NewestOffset() + 1 }
 
 // readLog reads the whole partition log (uncommitted reader from offset 0).
@@ -432,6 +475,7 @@ func (r *vC16Round) runWave(wave map[string]interface{}) (timeouts int) {
 				}
 			}
 			n := p.await()
+			p.fence()
 			mu.Lock()
 			timeouts += n
 			mu.Unlock()
@@ -549,12 +593,19 @@ func TestVerifC16Server(t *testing.T) {
 		}
 		sort.Slice(all, func(i, j int) bool { return all[i].SendT < all[j].SendT })
 		ids := map[string]int{}
+		unanswered, noanswer := 0, 0
 		msgs := make([]vC16Msg, len(all))
 		for i, m := range all {
 			msgs[i] = *m
 			ids[fmt.Sprintf("%d|%s|%d", r.id, m.P, m.Seq)] = i + 1
 			if m.AckT >= vC16Inf && !(m.Pol == "none" && !r.cfg.Occ) {
 				msgs[i].Res = "timeout"
+				if m.Pol != "none" {
+					unanswered++
+				}
+			}
+			if m.Res == "noanswer" {
+				noanswer++
 			}
 		}
 		logOut := make([]vC16Entry, len(entries))
@@ -562,14 +613,15 @@ func TestVerifC16Server(t *testing.T) {
 			logOut[i] = vC16Entry{Off: e.off, ID: ids[e.val]} // 0 = not a message of this round
 		}
 		ev := vC16Event{T: b.ID, A: "Round", Cfg: &r.cfg, Msgs: msgs, Log: logOut,
-			Clk: atomic.LoadInt64(r.clk) + 1, Known: known, Timeouts: timeouts, Paused: endedPaused, Pauses: r.pauses}
+			Clk: atomic.LoadInt64(r.clk) + 1, Known: known, Timeouts: unanswered, NoAnswer: noanswer, Paused: endedPaused, Pauses: r.pauses}
 		if rerr != nil {
 			ev.A, ev.Note = "Unreadable", "reading the final log: "+rerr.Error()
 		} else if r.note != "" {
 			ev.A, ev.Note = "Unreadable", r.note
 		}
 		emit(ev)
-		if timeouts > 0 {
+		_ = timeouts
+		if unanswered+noanswer > 0 {
 			timedOutRounds++
 		}
 		for _, p := range r.pubs {
